@@ -296,7 +296,7 @@ class CG(nn.Module):
             assert A.ndim == b.ndim, \
                 'The number of dimensions of A and b must be the same or one more than b'
         x = torch.zeros_like(b) if x is None else x.clone()
-        bnrm2 = torch.linalg.norm(b, dim=0)
+        bnrm2 = torch.linalg.norm(b, dim=-2)
         if (bnrm2 == 0).all():
             return b
         atol = self.tol * bnrm2
@@ -316,7 +316,7 @@ class CG(nn.Module):
             z = r.clone()
 
         for iteration in range(maxiter):
-            if (torch.linalg.norm(r, dim=0) < atol).all():
+            if (torch.linalg.norm(r, dim=-2) < atol).all():
                 return x
 
             if M is not None:
